@@ -88,7 +88,7 @@ Section Field.
       cbn [norm_pv]. unfold emit_field. cbn [fgroup fopt fty fnum fwraps].
       match goal with |- context [is_default sc ?f0 (PList (map _ _))] => rewrite (is_default_list sc f0 p l (norm_pv sc) eq_refl) end.
       match goal with |- (if ?c then _ else _) = _ => destruct c; [reflexivity|] end.
-      assert (E : forall y, In y l -> preprocess_with msgf t None (norm_pv sc y) = preprocess_with msgf t None y).
+      assert (E : forall y, In y l -> preprocess_with (msg_bytes (enc_obj sc)) t None (norm_pv sc y) = preprocess_with (msg_bytes (enc_obj sc)) t None y).
       { intros y Hy. apply (elem_norm_enc sc n IHo t p y); [|exact Wp|exact (Hv y Hy)|exact (Hg y Hy)].
         rewrite size_list in Hs. pose proof (in_sum_size y l Hy). lia. }
       destruct (tmem t PACKED_TYPES).
@@ -105,7 +105,7 @@ Section Field.
       cbn [norm_pv]. unfold emit_field. cbn [fgroup fopt fty fnum fwraps fmap].
       match goal with |- context [is_default sc ?f0 (PDict (map ?h _))] => rewrite (is_default_dict sc f0 pk p d h eq_refl) end.
       match goal with |- (if ?c then _ else _) = _ => destruct c; [reflexivity|] end.
-      assert (E : forall ky, In ky d -> preprocess_with msgf vt None (norm_pv sc (snd ky)) = preprocess_with msgf vt None (snd ky)).
+      assert (E : forall ky, In ky d -> preprocess_with (msg_bytes (enc_obj sc)) vt None (norm_pv sc (snd ky)) = preprocess_with (msg_bytes (enc_obj sc)) vt None (snd ky)).
       { intros [k y] Hy. cbn [snd]. specialize (Hv _ Hy). cbn [fst snd] in Hv. apply andb_prop in Hv as [_ Hv].
         apply (elem_norm_enc sc n IHo vt p y); [|exact Wv|exact Hv|exact (Hg _ Hy)].
         rewrite size_dict in Hs. pose proof (in_sum_size_d k y d Hy). lia. }
